@@ -116,6 +116,9 @@ def gen_cases(tier, seed):
     for k in range(4 if tier == "quick" else 24):
         cases.append({"id": "histories-random-%d" % k, "sig": ["histories-random", k], "kind": "histories-random", "k": k, "len": 60 if tier == "quick" else 400})
     # entry-level gates (start, get_signer, sign): every interleaving of 2 threads, and of 3 threads
+    # entities built from the SAME key_file / cert_file paths whose content was replaced in between (key roll-over)
+    for k in range(2 if tier == "quick" else 6):
+        cases.append({"id": "key-rollover-%d" % k, "sig": ["key-rollover", k], "kind": "rollover", "k": k})
     cases.append({"id": "schedules-2-threads", "sig": ["schedules", 2], "kind": "schedules", "threads": 2})
     cases.append({"id": "schedules-3-threads", "sig": ["schedules", 3], "kind": "schedules", "threads": 3, "limit": 400 if tier == "quick" else 100000})
     # line-level gates inside get_signer/sign: 2 threads, preemption bounded
@@ -467,6 +470,33 @@ def run_case(case, ctx):
         run_histories(case, ctx, viol, counters, sigs)
     elif kind == "histories-random":
         run_random_history(case, ctx, viol, counters, sigs)
+    elif kind == "rollover":
+        import os
+        import shutil
+        rng = random.Random("%s/%s" % (ctx.seed, case["id"]))
+        kpath = os.path.join(ctx.scratch, "rollover-%d.key" % case["k"])
+        cpath = os.path.join(ctx.scratch, "rollover-%d.crt" % case["k"])
+        gens = rng.sample([4, 5, 6, 7, 8], 3)
+        idpmd = fed.metadata_of(fed.idp_conf())
+        ents = []
+        for g, ki in enumerate(gens):
+            shutil.copy(fed.key(ki)[0], kpath)
+            shutil.copy(fed.key(ki)[1], cpath)
+            cnf = fed.sp_conf(eid="https://rollover%d.example.org/md" % g, enc_keys=())
+            cnf["key_file"], cnf["cert_file"] = kpath, cpath
+            ent = fed.make_sp(cnf, [idpmd])
+            ents.append((ent, ki))
+            # every entity built so far signs again: the key is the one its files held when it was built
+            for (e2, k2) in ents:
+                rid, req = e2.create_authn_request(fed.SSO_REDIRECT)
+                url = signed_url(e2, "%s" % req, "rs", rng.choice(sorted(ALGS)))
+                counters["urls_checked"] = counters.get("urls_checked", 0) + 1
+                ok = [i for i in range(12) if independent_verify(url, i)]
+                if ok != [k2]:
+                    viol.append({"key": "C15/url-signed-with-another-entitys-key",
+                                 "what": "key roll-over at one path: entity built while the files held k%02d signs a URL that verifies under %s (files now hold k%02d)" % (
+                                     k2, ["k%02d" % i for i in ok], ki), "detail": {"url": url[:500]}})
+        sigs.append(["key-rollover", case["k"]])
     elif kind == "schedules":
         status = install_monitoring()
         extra["monitoring"] = status
@@ -511,7 +541,7 @@ def run_case(case, ctx):
     for v in viol:
         uniq.setdefault(v["key"] + v["what"][:60], v)
     return {"outcome": "violations" if viol else "held", "nontrivial": counters.get("urls_checked", 0) > 0, "violations": list(uniq.values())[:8],
-            "counters": counters, "sigs": sigs, "evals": max(1, counters.get("histories", 0) + counters.get("interleavings_executed", 0) + (1 if kind in ("inputs", "free") else 0)),
+            "counters": counters, "sigs": sigs, "evals": max(1, counters.get("histories", 0) + counters.get("interleavings_executed", 0) + (1 if kind in ("inputs", "free", "rollover") else 0)),
             "obs": extra}
 
 
